@@ -245,6 +245,13 @@ Setter == /\ Is("Setter")
              /\ base' = IF ~busy /\ Ev.outcome = "ok" THEN c ELSE base
           /\ l' = l + 1 /\ UNCHANGED <<run, scen, params, call, hist, expect>>
 
+\* one call of a public mutator of Circuit, with its arguments: the abstract data type decides (object "A" holds the model state)
+ApiEv == /\ Is("Api") /\ ~call.active
+         /\ fails' = ApiFails(Ev, objs["A"])
+         /\ objs' = [objs EXCEPT !["A"] = LET valid == ApiValid(Ev.kind, Ev.arg, objs["A"]) IN
+                                          IF valid THEN ApiEffect(Ev.kind, Ev.arg, objs["A"]) ELSE objs["A"]]
+         /\ l' = l + 1 /\ UNCHANGED <<run, scen, params, base, call, hist, expect>>
+
 \* C09: value of an incremental one-dimensional wirelength model after an update; the logged circuit carries the
 \* updated positions, so the contract is simply "value = from-scratch wirelength along that axis".
 Incr == /\ Is("Incr")
@@ -405,7 +412,7 @@ ParamCheck == /\ Is("ParamCheck")
               /\ fails' = ParamCheckFails(Ev)
               /\ l' = l + 1 /\ UNCHANGED <<run, scen, params, base, objs, call, hist, expect>>
 
-Next == PassEv \/ PassThrow \/ RoundTrip \/ ExportEv \/ BindEv \/ ExpandEv \/ GridEv \/ SolveEv \/ Schedule \/ HarnessError \/ ExpectReject \/ ParamsCtor \/ ParamCheck \/ Rebase \/ FreeEv \/ Incr \/ Reset \/ Begin \/ Cb \/ CbThrow \/ EndReturn \/ EndThrow \/ BadFate \/ Setter
+Next == ApiEv \/ PassEv \/ PassThrow \/ RoundTrip \/ ExportEv \/ BindEv \/ ExpandEv \/ GridEv \/ SolveEv \/ Schedule \/ HarnessError \/ ExpectReject \/ ParamsCtor \/ ParamCheck \/ Rebase \/ FreeEv \/ Incr \/ Reset \/ Begin \/ Cb \/ CbThrow \/ EndReturn \/ EndThrow \/ BadFate \/ Setter
 Spec == Init /\ [][Next]_vars
 
 ---------------------------------------------------------------------------
